@@ -8,4 +8,4 @@ Extraction "model.ml"
   N.add N.mul N.div_eucl N.eqb
   c_step c_step_cut c_startup c_replay c_kvlog init_state init_state_at reset_keys
   monitor bad_cache_ok census_left
-  V_NO_BOOT V_ACK_EARLY V_LOST V_PARTIAL V_LEFTOVER V_FLUSHED V_STALE V_STALE_LIVE V_REBOUND.
+  V_NO_BOOT V_ACK_EARLY V_LOST V_PARTIAL V_LEFTOVER V_FLUSHED V_STALE V_STALE_LIVE V_REBOUND V_SUBS_MIRROR V_SUBS_STALE V_SUBS_STALE_LIVE V_SUBS_REBOUND.
